@@ -1,128 +1,148 @@
-(* Proofs for property C10 (notifications carry the requested characteristic to subscribed clients only). *)
+(* The attribute a notification reads (AttDbModel.v: all_infos = characteristics_with_attribute_indizes of
+   find_notification_data_in_list): if EVERY service has at least one characteristic, first_attribute_index + 1
+   of every characteristic of the sorted list is the index of its own value attribute, and its declaration
+   order number among the characteristics with CCCD (ci_pos) is the ClientCharacteristicIndex of that attribute.
+   (A service without characteristics breaks this: C10_right_characteristic_refuted.) *)
 From Coq Require Import Lia ZifyBool Permutation.
-From BT Require Import Base.ListX Base.Bits2 AttDb.AttDbModel AttDb.AttDbNotifProofs NQueue.NQueueModel AttSrv.AttSrvModel
-  AttSrv.AttSrvSpecC01 AttSrv.AttSrvProofsC01 AttSrv.AttSrvFrame.
+From BT Require Import Base.ListX AttDb.AttDbModel AttDb.AttDbNotifProofs.
 Local Open Scope N_scope.
 
-(* ------------------------------------------------------------------ which index a request queues *)
-Definition gci_is (g : nat) (x : cinfo) : bool := Nat.eqb (ci_gci x) g.
+(* the same traversal as chars_infos / svcs_infos, carrying the CCCD number like attribute_at does *)
+Fixpoint chars_icci (c : cfg) (s : service_decl) (cs : list char_decl) (gci : nat) (offset lastend cci : N) : list (cinfo * N) :=
+  match cs with
+  | [] => []
+  | ch :: t =>
+      let first := lastend + offset in
+      (mkCI s ch gci first (characteristic_priority c s ch) 0, cci)
+      :: chars_icci c s t (S gci) 0 (first + char_nattrs ch) (cci + char_nccc ch)
+  end.
 
-Lemma index_of_gci_first g : forall l x rest,
-  filter (gci_is g) l = x :: rest -> nth_error l (N.to_nat (index_of_gci g l)) = Some x.
+Fixpoint svcs_icci (c : cfg) (ss : list service_decl) (gci : nat) (lastend cci : N) : list (cinfo * N) :=
+  match ss with
+  | [] => []
+  | s :: t =>
+      let l := chars_icci c s (s_chars s) gci (svc_nsattrs s) lastend cci in
+      l ++ svcs_icci c t (gci + length (s_chars s))%nat (infos_end (map fst l) lastend) (cci + svc_nccc s)
+  end.
+
+Lemma chars_icci_fst c s : forall cs gci off le cci, map fst (chars_icci c s cs gci off le cci) = chars_infos c s cs gci off le.
+Proof. induction cs as [|ch t IH]; intros; cbn [chars_icci chars_infos map fst]; auto. rewrite IH. reflexivity. Qed.
+
+Lemma svcs_icci_fst c : forall ss gci le cci, map fst (svcs_icci c ss gci le cci) = svcs_infos c ss gci le.
 Proof.
-  induction l as [|a t IH]; intros x rest H; cbn [filter index_of_gci] in *; [discriminate|].
-  unfold gci_is in H at 1. destruct (Nat.eqb (ci_gci a) g) eqn:E.
-  - inv H. reflexivity.
-  - replace (N.to_nat (1 + index_of_gci g t)) with (S (N.to_nat (index_of_gci g t))) by lia. cbn [nth_error]. eapply IH; eauto.
+  induction ss as [|s t IH]; intros; cbn [svcs_icci svcs_infos map]; auto.
+  rewrite map_app, chars_icci_fst, IH. reflexivity.
 Qed.
 
-Lemma filter_head_in (A : Type) (f : A -> bool) l x rest : filter f l = x :: rest -> In x l /\ f x = true.
-Proof. intros H. assert (I : In x (filter f l)) by (rewrite H; left; reflexivity). apply filter_In in I. exact I. Qed.
-
-(* notify( value ) / indicate( value ): the queued index is the position of that characteristic in the priority
-   SORTED list, i.e. what find_notification_data_by_index maps back to the same attribute *)
-Theorem by_value_addresses_sorted_index c g d :
-  find_notification_data c g = Some d ->
-  find_notification_data_by_index c (snd d) = d
-  /\ exists x, nth_error (sorted_infos c) (N.to_nat (snd d)) = Some x /\ ci_gci x = g /\ fst d = ci_first x + 1.
+(* ------------------------------------------------------------------ infos_end of a service with characteristics *)
+Lemma infos_end_cons x l le : l <> [] -> infos_end (x :: l) le = infos_end l le.
 Proof.
-  unfold find_notification_data. change (fun x : cinfo => Nat.eqb (ci_gci x) g) with (gci_is g).
-  destruct (filter (gci_is g) (sorted_infos c)) as [|x rest] eqn:F; [discriminate|].
-  destruct (c_value (ci_char x)); try discriminate. intros H. inv H. cbn [fst snd].
-  pose proof (index_of_gci_first _ _ _ _ F) as Nx.
-  destruct (filter_head_in _ _ _ _ _ F) as (_ & Gx). apply Nat.eqb_eq in Gx.
-  split.
-  - unfold find_notification_data_by_index. rewrite Nx. reflexivity.
-  - exists x. auto.
+  intros N. unfold infos_end. cbn [rev]. destruct (rev l) as [|y r] eqn:E.
+  - exfalso. apply N. apply (f_equal (@rev _)) in E. rewrite rev_involutive in E. exact E.
+  - reflexivity.
 Qed.
 
-(* ------------------------------------------------------------------ the sorted list and the declaration list *)
-(* global characteristic numbers are 0, 1, 2, ... in declaration order *)
-Lemma chars_infos_gci c s : forall cs gci off le, map ci_gci (chars_infos c s cs gci off le) = seq gci (length cs).
-Proof. induction cs as [|ch t IH]; intros; cbn [chars_infos map length seq]; auto. rewrite IH. reflexivity. Qed.
-
-Lemma chars_infos_length c s : forall cs gci off le, length (chars_infos c s cs gci off le) = length cs.
-Proof. induction cs as [|ch t IH]; intros; cbn [chars_infos length]; auto. Qed.
-
-Lemma svcs_infos_gci c : forall ss gci le, map ci_gci (svcs_infos c ss gci le) = seq gci (length (svcs_infos c ss gci le)).
+Lemma chars_infos_end c s : forall cs gci off le le',
+  cs <> [] -> infos_end (chars_infos c s cs gci off le) le' = le + off + sumN char_nattrs cs.
 Proof.
-  induction ss as [|s t IH]; intros; cbn [svcs_infos map length seq]; auto.
-  rewrite map_app, app_length, seq_app, chars_infos_gci, IH, chars_infos_length. reflexivity.
+  induction cs as [|ch t IH]; intros gci off le le' N; [contradiction|].
+  destruct t as [|ch2 t'].
+  - cbn [chars_infos sumN]. unfold infos_end. cbn [rev app ci_first ci_char]. lia.
+  - change (chars_infos c s (ch :: ch2 :: t') gci off le)
+      with (mkCI s ch gci (le + off) (characteristic_priority c s ch) 0 :: chars_infos c s (ch2 :: t') (S gci) 0 (le + off + char_nattrs ch)).
+    rewrite infos_end_cons by (cbn [chars_infos]; discriminate).
+    rewrite IH by discriminate. cbn [sumN]. lia.
 Qed.
 
-Lemma all_infos_gci_nodup c : NoDup (map ci_gci (all_infos c)).
-Proof. unfold all_infos. rewrite svcs_infos_gci. apply seq_NoDup. Qed.
+(* ------------------------------------------------------------------ the value attribute *)
+Lemma char_nattrs_ge2 ch : 2 <= char_nattrs ch.
+Proof. unfold char_nattrs. lia. Qed.
 
-(* an element of the sorted list is an element of the declaration list with another ci_pos *)
-Lemma number_from_in l : forall n y, In y (number_from set_pos l n) -> exists x p, In x l /\ y = set_pos x p.
+Lemma chars_icci_attr c s : forall cs gci off le cci0 x cci,
+  In (x, cci) (chars_icci c s cs gci off le cci0) ->
+  le + off <= ci_first x /\ ci_first x + 2 <= le + off + sumN char_nattrs cs
+  /\ chars_attribute_at s cs gci cci0 (ci_first x + 1 - (le + off)) = Some (AValue (ci_svc x) (ci_char x) (ci_gci x) cci).
 Proof.
-  induction l as [|a t IH]; intros n y H; cbn [number_from] in H; [destruct H|].
-  destruct H as [H|H]; [exists a, n; split; [left; reflexivity|auto]|].
-  destruct (IH _ _ H) as (x & p & I & E). exists x, p. split; [right; auto|auto].
+  induction cs as [|ch t IH]; intros gci off le cci0 x cci H; cbn [chars_icci] in H; [destruct H|].
+  pose proof (char_nattrs_ge2 ch) as G2. cbn [sumN chars_attribute_at].
+  destruct H as [H|H].
+  - inversion H; subst; clear H. cbn [ci_first ci_svc ci_char ci_gci].
+    split; [lia|]. split; [lia|].
+    replace (le + off + 1 - (le + off)) with 1 by lia.
+    replace (1 <? char_nattrs ch) with true by (symmetry; apply N.ltb_lt; lia).
+    reflexivity.
+  - apply IH in H. destruct H as (A & B & C).
+    split; [lia|]. split; [lia|].
+    replace (ci_first x + 1 - (le + off) <? char_nattrs ch) with false by (symmetry; apply N.ltb_ge; lia).
+    replace (ci_first x + 1 - (le + off) - char_nattrs ch) with (ci_first x + 1 - (le + off + char_nattrs ch + 0)) by lia.
+    exact C.
 Qed.
 
-Lemma sorted_in_all c y : In y (sorted_infos c) -> exists x p, In x (all_infos c) /\ has_cccd (ci_char x) = true /\ y = set_pos x p.
+Definition all_nonempty (ss : list service_decl) : bool := forallb (fun s => negb (Nat.eqb (length (s_chars s)) 0)) ss.
+
+Lemma svcs_icci_attr c : forall ss gci base cci0 x cci,
+  all_nonempty ss = true ->
+  In (x, cci) (svcs_icci c ss gci base cci0) ->
+  base <= ci_first x /\ ci_first x + 2 <= base + sumN svc_nattrs ss
+  /\ svcs_attribute_at ss gci cci0 (ci_first x + 1 - base) = Some (AValue (ci_svc x) (ci_char x) (ci_gci x) cci).
 Proof.
-  intros H. apply (Permutation_in _ (sorted_infos_perm c)) in H. unfold cccd_infos in H.
-  change (fun (x : cinfo) (n : N) => _) with set_pos in H.
-  destruct (number_from_in _ _ _ H) as (x & p & I & E). apply filter_In in I. destruct I as (I & C).
-  exists x, p. auto.
+  induction ss as [|s t IH]; intros gci base cci0 x cci NE H; cbn [svcs_icci] in H; [destruct H|].
+  cbn [all_nonempty forallb] in NE. apply andb_true_iff in NE. destruct NE as [NE1 NE2].
+  assert (Hne : s_chars s <> []).
+  { destruct (s_chars s); [cbn in NE1; discriminate|discriminate]. }
+  cbn [sumN svcs_attribute_at]. set (T := sumN svc_nattrs t) in *. unfold svc_nattrs.
+  apply in_app_or in H. destruct H as [H|H].
+  - apply chars_icci_attr in H. destruct H as (A & B & C).
+    split; [unfold svc_nsattrs in *; lia|]. split; [lia|].
+    replace (ci_first x + 1 - base <? svc_nsattrs s + sumN char_nattrs (s_chars s)) with true by (symmetry; apply N.ltb_lt; lia).
+    unfold svc_attribute_at.
+    replace (ci_first x + 1 - base <? svc_nsattrs s) with false by (symmetry; apply N.ltb_ge; lia).
+    replace (ci_first x + 1 - base - svc_nsattrs s) with (ci_first x + 1 - (base + svc_nsattrs s)) by lia.
+    exact C.
+  - rewrite chars_icci_fst, chars_infos_end in H by exact Hne.
+    apply IH in H; [|exact NE2]. fold T in H. destruct H as (A & B & C).
+    split; [lia|]. split; [lia|].
+    replace (ci_first x + 1 - base <? svc_nsattrs s + sumN char_nattrs (s_chars s)) with false by (symmetry; apply N.ltb_ge; lia).
+    replace (ci_first x + 1 - base - (svc_nsattrs s + sumN char_nattrs (s_chars s)))
+      with (ci_first x + 1 - (base + svc_nsattrs s + sumN char_nattrs (s_chars s))) by lia.
+    exact C.
 Qed.
 
-Lemma in_map_nodup_eq (A B : Type) (f : A -> B) l x y : NoDup (map f l) -> In x l -> In y l -> f x = f y -> x = y.
+(* ------------------------------------------------------------------ CCCD numbers of the characteristics with CCCD *)
+Definition with_cccd (e : cinfo * N) : bool := has_cccd (ci_char (fst e)).
+
+Lemma chars_icci_cccd c s : forall cs gci off le cci0,
+  map snd (filter with_cccd (chars_icci c s cs gci off le cci0))
+  = map (fun i => cci0 + N.of_nat i) (seq 0 (length (filter with_cccd (chars_icci c s cs gci off le cci0))))
+  /\ N.of_nat (length (filter with_cccd (chars_icci c s cs gci off le cci0))) = sumN char_nccc cs.
 Proof.
-  induction l as [|a t IH]; intros ND Ix Iy E; [destruct Ix|]. cbn [map] in ND. inversion ND as [|? ? Na ND']; subst.
-  destruct Ix as [->|Ix], Iy as [->|Iy]; auto.
-  - exfalso. apply Na. rewrite E. apply in_map. auto.
-  - exfalso. apply Na. rewrite <- E. apply in_map. auto.
+  induction cs as [|ch t IH]; intros gci off le cci0; cbn [chars_icci filter sumN]; [split; reflexivity|].
+  change (with_cccd (mkCI s ch gci (le + off) (characteristic_priority c s ch) 0, cci0)) with (has_cccd ch).
+  destruct (IH (S gci) 0 (le + off + char_nattrs ch) (cci0 + char_nccc ch)) as (A & B).
+  assert (Ec : char_nccc ch = b2n (has_cccd ch)) by reflexivity.
+  destruct (has_cccd ch) eqn:Hc; unfold b2n in Ec.
+  - cbn [map snd length seq]. split.
+    + f_equal; [lia|]. rewrite A. rewrite <- seq_shift, map_map. apply map_ext. intros i. lia.
+    + lia.
+  - split.
+    + rewrite A. apply map_ext. intros i. lia.
+    + lia.
 Qed.
 
-(* notify< UUID >() / indicate< UUID >(): the same, for the first characteristic with that uuid *)
-Theorem by_uuid_addresses_sorted_index c u d :
-  find_notification_by_uuid c u = Some d ->
-  exists x0, find_char_by_uuid c u = Some x0
-    /\ find_notification_data_by_index c (snd d) = d
-    /\ exists x, nth_error (sorted_infos c) (N.to_nat (snd d)) = Some x /\ ci_gci x = ci_gci x0 /\ fst d = ci_first x + 1.
+Lemma seq_app_map (f g : nat -> N) a b :
+  (forall i, (i < a)%nat -> f i = g i) -> (forall i, (i < b)%nat -> f (a + i)%nat = g (a + i)%nat) ->
+  map f (seq 0 (a + b)) = map g (seq 0 (a + b)).
 Proof.
-  unfold find_notification_by_uuid. destruct (find_char_by_uuid c u) as [x0|] eqn:F; [|discriminate].
-  destruct (has_cccd (ci_char x0)) eqn:C; [|discriminate]. intros H. inv H. cbn [fst snd].
-  exists x0. split; auto.
-  (* x0 is in the declaration list; its image is in the sorted list *)
-  assert (I0 : In x0 (all_infos c)).
-  { unfold find_char_by_uuid in F. destruct (filter _ (all_infos c)) as [|y r] eqn:E; [discriminate|]. inv F.
-    apply filter_head_in in E. tauto. }
-  assert (exists y, In y (sorted_infos c) /\ ci_gci y = ci_gci x0) as (y & Iy & Gy).
-  { assert (In x0 (filter (fun x => has_cccd (ci_char x)) (all_infos c))) by (apply filter_In; auto).
-    assert (exists y, In y (cccd_infos c) /\ ci_gci y = ci_gci x0) as (y & Iy & Gy).
-    { unfold cccd_infos. change (fun (x : cinfo) (n : N) => _) with set_pos.
-      generalize 0. induction (filter _ (all_infos c)) as [|a t IH]; intros n; [destruct H|].
-      destruct H as [->|H]; cbn [number_from].
-      - eexists. split; [left; reflexivity|reflexivity].
-      - destruct (IH H (n + 1)) as (y & Iy & Gy). exists y. split; [right; auto|auto]. }
-    exists y. split; auto. apply (Permutation_in _ (Permutation_sym (sorted_infos_perm c))). auto. }
-  destruct (filter (gci_is (ci_gci x0)) (sorted_infos c)) as [|x rest] eqn:Fs.
-  { exfalso. assert (In y (filter (gci_is (ci_gci x0)) (sorted_infos c))) by (apply filter_In; split; auto; unfold gci_is; apply Nat.eqb_eq; auto).
-    rewrite Fs in H. destruct H. }
-  pose proof (index_of_gci_first _ _ _ _ Fs) as Nx.
-  destruct (filter_head_in _ _ _ _ _ Fs) as (Ix & Gx). apply Nat.eqb_eq in Gx.
-  (* x is x0 up to ci_pos *)
-  destruct (sorted_in_all c x Ix) as (x1 & p & I1 & _ & ->). cbn [set_pos ci_gci] in Gx.
-  assert (x1 = x0) by (eapply in_map_nodup_eq; eauto using all_infos_gci_nodup). subst x1.
-  split.
-  - unfold find_notification_data_by_index. rewrite Nx. reflexivity.
-  - eexists. split; [exact Nx|]. split; reflexivity.
+  intros H1 H2. apply map_ext_in. intros i Hi. apply in_seq in Hi.
+  destruct (Nat.lt_ge_cases i a) as [L|L]; [auto|]. replace i with (a + (i - a))%nat by lia. apply H2. lia.
 Qed.
 
-Lemma put_put_take b l b1 x y z b2 :
-  put b 3 l = Some b1 -> put b1 0 [x; y; z] = Some b2 -> takeN (3 + len l) b2 = x :: y :: z :: l.
+Lemma svcs_icci_cccd c : forall ss gci le cci0,
+  map snd (filter with_cccd (svcs_icci c ss gci le cci0))
+  = map (fun i => cci0 + N.of_nat i) (seq 0 (length (filter with_cccd (svcs_icci c ss gci le cci0)))).
 Proof.
-  unfold put. destruct (3 + len l <=? len b) eqn:E1; [|discriminate]. intros H1. apply f_some_inj in H1. subst b1.
-  destruct (0 + len [x; y; z] <=? _) eqn:E2; [|discriminate]. intros H2. apply f_some_inj in H2. subst b2.
-  apply N.leb_le in E1. unfold len in E1. clear E2.
-  unfold takeN, dropN, len.
-  replace (N.to_nat 0) with 0%nat by reflexivity. replace (N.to_nat 3) with 3%nat by reflexivity.
-  replace (N.to_nat (0 + N.of_nat (length [x; y; z]))) with 3%nat by (cbn [length]; lia).
-  replace (N.to_nat (3 + N.of_nat (length l))) with (3 + length l)%nat by lia.
-  cbn [firstn app].
-  assert (L3 : length (firstn 3 b) = 3%nat) by (rewrite firstn_length; lia).
+  induction ss as [|s t IH]; intros gci le cci0; cbn [svcs_icci filter]; [reflexivity|].
+  rewrite filter_app, map_app, app_length.
+  destruct (chars_icci_cccd c s (s_chars s) gci (svc_nsattrs s) le cci0) as (A & B).
+  rewrite A, IH. rewrite seq_app, map_app. f_equal.
 Show.
